@@ -8,7 +8,6 @@ package main
 
 import (
 	"fmt"
-	"time"
 
 	"verif/harness/abci"
 	"verif/harness/hx"
@@ -667,7 +666,7 @@ func runPoll(p PollParams, ops hx.Counter) []Case {
 		h.Tx("assign-role", 0, govtypes.NewMsgAssignRole(a0, c.Accounts[1].Addr, 3))
 		h.Tx("assign-role", 0, govtypes.NewMsgAssignRole(a0, c.Accounts[2].Addr, 3))
 		res := h.Tx("poll-create", 0, govtypes.NewMsgPollCreate(a0, "t", "d", "ref", "sum", []string{"aa", "bb"}, []string{"pollers"}, 3, "string", 1, "1s"))
-		log = append(log, fmt.Sprintf("a0 creates role pollers(3), assigns it to a1,a2 and creates a poll for that role lasting 1s of WALL-CLOCK time code=%d", res.Code))
+		log = append(log, fmt.Sprintf("a0 creates role pollers(3), assigns it to a1,a2 and creates a poll for that role lasting 1s code=%d", res.Code))
 		for a := 1; a <= 2; a++ {
 			res = h.Tx("poll-vote", a, govtypes.NewMsgVotePoll(1, c.Accounts[a].Addr, govtypes.PollOptionAbstain, ""))
 			log = append(log, fmt.Sprintf("a%d votes in the poll code=%d", a, res.Code))
@@ -677,7 +676,6 @@ func runPoll(p PollParams, ops hx.Counter) []Case {
 			log = append(log, fmt.Sprintf("a0 unassigns role pollers from a1 (who voted) code=%d", res.Code))
 		}
 	}, nil)
-	time.Sleep(1100 * time.Millisecond)
 	var site string
 	var sj interface{}
 	h.Block(BlockReq{Dt: 5}, nil, func(ctx sdk.Context) {
@@ -690,10 +688,10 @@ func runPoll(p PollParams, ops hx.Counter) []Case {
 		}
 		it.Close()
 		q := k.GetNetworkProperties(ctx).VoteQuorum
-		site = fmt.Sprintf("(SQuorum true %s %d %d)", hx.ZBig(q.BigInt()), votes, voters)
+		site = fmt.Sprintf("(SPollQuorum true %s %d %d)", hx.ZBig(q.BigInt()), votes, voters)
 		sj = map[string]interface{}{"poll": 1, "quorum": q.String(), "votes": votes, "voters": voters}
 	})
-	log = append(log, "1.1s later: block dt=5 (processPoll runs in EndBlock)")
+	log = append(log, "block dt=5 (processPoll runs in EndBlock)")
 	return []Case{siteCase("gov-poll-quorum", site, sj, h, log, p)}
 }
 
